@@ -206,38 +206,35 @@ fn dmr_returns_is_repeatable_unquantified() {
     core::mem::forget(nb);
 }
 
-/// The payload-free response kinds: each pushes exactly its own responder kind at the running index, no quantification.
-//@K props=C02,C03 tier=quick label=full feat=std fn=DefineMultipleResponses::panics,applies_unmocked,applies_default_impl,answers,returns_default
-#[kani::proof]
-#[kani::unwind(3)]
-fn response_kinds() {
-    let (b, s) = any_state(PatternMatchMode::InAnyOrder);
-    let which: u8 = kani::any();
-    kani::assume(which < 5);
-    let d = dmr_of(b);
-    let nb = match which {
-        0 => d.applies_unmocked().wrapper.into_owned(),
-        1 => d.applies_default_impl().wrapper.into_owned(),
-        2 => d.panics("x").wrapper.into_owned(),
-        3 => d.answers(&|_, x| x).wrapper.into_owned(),
-        _ => d.returns_default().wrapper.into_owned(),
-    };
-    check_state(&nb, s.idx, s.min, s.k, 1);
-    assert!(nb.responders[0].response_index == s.idx);
-    match which {
-        0 => assert!(matches!(nb.responders[0].responder, DynResponder::Unmock)),
-        1 => assert!(matches!(nb.responders[0].responder, DynResponder::ApplyDefaultImpl)),
-        2 => assert!(matches!(nb.responders[0].responder, DynResponder::Panic(_))),
-        3 => assert!(matches!(nb.responders[0].responder, DynResponder::Answer(_))),
-        _ => {
-            assert!(output_of(&nb.responders[0].responder) == Some(0));
-            assert!(output_of(&nb.responders[0].responder) == Some(0));
+macro_rules! response_kind {
+    ($name:ident, $call:expr, $check:expr) => {
+        /// One response kind: pushes exactly its own responder kind at the running index; no quantification.
+        #[kani::proof]
+        #[kani::unwind(3)]
+        fn $name() {
+            let (b, s) = any_state(PatternMatchMode::InAnyOrder);
+            let d = dmr_of(b);
+            let f: fn(DefineMultipleResponses<'static, F8, InAnyOrder>) -> Quantify<'static, F8, InAnyOrder> = $call;
+            let nb = f(d).wrapper.into_owned();
+            check_state(&nb, s.idx, s.min, s.k, 1);
+            assert!(nb.responders[0].response_index == s.idx);
+            let c: fn(&DynResponder) -> bool = $check;
+            assert!(c(&nb.responders[0].responder));
+            kani::cover!(true);
+            core::mem::forget(nb);
         }
-    }
-    kani::cover!(which == 2);
-    kani::cover!(which == 4);
-    core::mem::forget(nb);
+    };
 }
+//@K props=C02,C03 tier=quick label=full feat=std fn=DefineMultipleResponses::applies_unmocked
+response_kind!(kind_unmocked, |d| d.applies_unmocked(), |r| matches!(r, DynResponder::Unmock));
+//@K props=C02,C03 tier=quick label=full feat=std fn=DefineMultipleResponses::applies_default_impl
+response_kind!(kind_default_impl, |d| d.applies_default_impl(), |r| matches!(r, DynResponder::ApplyDefaultImpl));
+//@K props=C02,C03 tier=quick label=full feat=std fn=DefineMultipleResponses::panics
+response_kind!(kind_panics, |d| d.panics("x"), |r| matches!(r, DynResponder::Panic(_)));
+//@K props=C02,C03 tier=quick label=full feat=std fn=DefineMultipleResponses::answers
+response_kind!(kind_answers, |d| d.answers(&|_, x| x), |r| matches!(r, DynResponder::Answer(_)));
+//@K props=C02,C03 tier=quick label=full feat=std fn=DefineMultipleResponses::returns_default
+response_kind!(kind_returns_default, |d| d.returns_default(), |r| output_of(r) == Some(0) && output_of(r) == Some(0));
 
 struct CapSink(Option<DynCallPatternBuilder>, usize);
 impl clause::term::Sink for CapSink {
